@@ -32,6 +32,8 @@ func init() {
 		// a shrink transaction larger than the log is refused on every retry: the truncation never finishes
 		ruleShrinkReserve(c, "C05.F18")
 		ruleBmapFlag(c, "C05.F19")
+		// a READ that maps blocks behind the end of the file links blocks no truncation will ever look at
+		ruleReadClamp(c, "C05.F20")
 		ruleW1(c, "C05.F7")
 		ruleR3(c, "C05.R3")
 		ruleR6(c, "C05.R6")
@@ -206,7 +208,12 @@ func ruleF6(c *Ctx, id string) {
 	R.Check(isGo(start.Blocks[0].Instrs[0]) || MustAfter(start, isGo, nil)(start.Blocks[0].Instrs[0]), id, "shrinker.StartShrinker|every request starts a shrinker", P.Pos(start.Pos()), "every path of StartShrinker reaches its go statement", "must-follow", "a request can be dropped: the inode keeps ShrinkSize beyond its size and nobody frees the blocks - a removed file's blocks stay marked in use and unreachable")
 	if doShrink := c.fn(id, "shrinker.(*ShrinkerSt).DoShrink"); doShrink != nil {
 		callsDo := func(in ssa.Instruction) bool {
-			if _, ok := in.(*ssa.Call); !ok || staticCallee(in) != doShrink {
+			if _, ok := in.(*ssa.Call); !ok {
+				return false
+			}
+			// DoShrink itself, or a function of the package that does the shrinking (it reaches Inode.Shrink)
+			g := staticCallee(in)
+			if g == nil || (g != doShrink && !(funcPkg(g) == funcPkg(body) && c.V.Shrink != nil && P.Reach([]*ssa.Function{g}, func(f *ssa.Function) bool { return !IsRepoFunc(f) })[c.V.Shrink])) {
 				return false
 			}
 			a := nonRecvArgs(in)
